@@ -952,5 +952,6 @@ KILLS = [
     'listdir: trunk column 7 wide => files.missing ; _filter_names ignores the extension mask => files.lists-unknown',
     "kill ignores the extension mask => kill.missing-host-file (needs sibling names: op 'sibling')",
     '_get_native_name: legality check dropped => illegal.accepted ; created name keeps the typed case => create.unexpected-host-file',
+    "dos_is_legal_name: per-part blank check simplified to a whole-name strip (reviewer's seeded change) => ./check red: blank.host-name-with-edge-blank ; blank check dropped entirely => same bucket ; control: dos_normalise_name strips part-edge blanks (accept-and-ignore) => stays green",
     'SURVIVED (equivalent): trailing single dot not stripped in _get_native_name - dos_normalise_name drops the empty extension anyway',
 ]
